@@ -2,6 +2,7 @@
 
 use crate::engine::Dec;
 pub use embedded_graphics::{
+    Pixel,
     geometry::{Angle, AngleUnit, Dimensions, Point, Size},
     pixelcolor::{raw::RawData, BinaryColor, Gray4, Gray8, PixelColor, Rgb565, Rgb888},
     primitives::{
